@@ -39,9 +39,9 @@ def _stacks(pattern):
     return out
 
 
-def run_job(cmd, P, timeout, tag):
+def run_job(cmd, P, timeout, tag, env=None):
     """run one mpiexec job; returns (rc, timed_out, stacks)"""
-    p = subprocess.Popen(MPIEXEC + ['-n', str(P)] + cmd, stdout=subprocess.PIPE, stderr=subprocess.STDOUT, text=True, start_new_session=True)
+    p = subprocess.Popen(MPIEXEC + (['-x', 'ASAN_OPTIONS', '-x', 'UBSAN_OPTIONS', '-x', 'LSAN_OPTIONS'] if env else []) + ['-n', str(P)] + cmd, stdout=subprocess.PIPE, stderr=subprocess.STDOUT, text=True, start_new_session=True, env=env)
     try:
         out, _ = p.communicate(timeout=timeout)
         return p.returncode, False, [], out
@@ -59,7 +59,7 @@ def run_job(cmd, P, timeout, tag):
         return -9, True, stacks, out
 
 
-def run_mpi_cases(agg, binary, seed, P, a, b, opts, timeout, source, entries, max_samples=2, hang_rerun=True):
+def run_mpi_cases(agg, binary, seed, P, a, b, opts, timeout, source, entries, max_samples=2, hang_rerun=True, env=None):
     """cases [a,b) inside mpiexec -n P jobs; a job that dies or hangs is attributed to the (case, entry) whose ENTER has no RETURN"""
     cur = a
     rerun_at = None
@@ -69,7 +69,12 @@ def run_mpi_cases(agg, binary, seed, P, a, b, opts, timeout, source, entries, ma
         cmd = [binary, '--seed', str(seed), '--from', str(cur), '--to', str(b), '--samples', str(max_samples), '--opt', 'out=' + prefix]
         for k, v in (opts or {}).items():
             cmd += ['--opt', '%s=%s' % (k, v)]
-        rc, timed_out, stacks, out = run_job(cmd, P, timeout, prefix)
+        rc, timed_out, stacks, out = run_job(cmd, P, timeout, prefix, env=env)
+        if env and out and lib.SAN_RE.search(out):
+            with agg.lock:
+                for rep in lib.classify_stderr(out):
+                    rep['idx'] = cur; rep['source'] = source
+                    agg.sanitizer_reports.append(rep)
         ranks = _read_ranks(prefix, P)
         shutil.rmtree(d, ignore_errors=True)
         last_b = last_e = None
